@@ -175,7 +175,9 @@ class BodyMixin:
 
         """
         env = self.environ
-        files = env['ombott.request.files'] = self._forms_factory()
+        # `forms` / `files` are published only when the whole body was processed: a failed
+        # run must not leave partial mappings behind for the next access
+        files = self._forms_factory()
         post = self._forms_factory()
 
         # We default to application/x-www-form-urlencoded for everything that
@@ -193,10 +195,11 @@ class BodyMixin:
                     touni(self._get_body_string(), 'latin1'),
                     setitem=post.__setitem__
                 )
+            env['ombott.request.files'] = files
             env['ombott.request.forms'] = post
             return post
 
-        forms = env['ombott.request.forms'] = self._forms_factory()
+        forms = self._forms_factory()
 
         body = self.body
         markup: MultipartMarkup = body.ombott_markup
@@ -210,6 +213,8 @@ class BodyMixin:
             self._collect_multipart(body, markup, post, forms, files)
         except (RequestError, ValueError, KeyError, RuntimeError) as err:
             self._raise_parsing_error(err)
+        env['ombott.request.files'] = files
+        env['ombott.request.forms'] = forms
         return post
 
     def _raise_parsing_error(self, err):
